@@ -87,7 +87,7 @@ def _label(kind):
     if t == "Hist":
         return "Histogram[%s]" % kind["var"]
     if t == "Hist2":
-        return "Histogram[2d]"
+        return "Histogram[2d]" if kind.get("var", "plain") == "plain" else "Histogram[2d,%s]" % kind["var"]
     if t == "Graph":
         return "Graph[scale=%s,sort=%s%s]" % ("None" if kind["scale"] == NONE else kind["scale"], kind["sort"],
                                               ",points" if kind.get("ipts") else "")
@@ -208,7 +208,14 @@ def build(kind):
         if var == "iv":
             return lena.structures.Histogram(edges, initial_value=init[0])
     if t == "Hist2":
-        return lena.structures.Histogram([list(kind["edges"]), list(kind["edges2"])])
+        edges2d = [list(kind["edges"]), list(kind["edges2"])]
+        init2 = [list(row) for row in kind["init2"]]
+        var = kind.get("var", "plain")
+        if var == "bins":
+            return lena.structures.Histogram(edges2d, bins=init2)
+        if var == "make":
+            return lena.structures.Histogram(edges2d, make_bins=lambda: [list(row) for row in init2])
+        return lena.structures.Histogram(edges2d)
     if t == "Graph":
         kw = {}
         if kind.get("ipts"):
@@ -784,8 +791,10 @@ def rand_kind(rnd):
         return {"t": "Hist", "var": var, "edges": edges, "init": init}
     if t == "Hist2":
         n, m = rnd.randint(1, 3), rnd.randint(1, 3)
-        return {"t": "Hist2", "edges": sorted(rnd.sample(range(-4, 6), n + 1)),
-                "edges2": sorted(rnd.sample(range(-4, 6), m + 1)), "init2": [[0] * m for _ in range(n)]}
+        var = rnd.choice(["plain", "bins", "make"])
+        init2 = [[0] * m for _ in range(n)] if var == "plain" else [[rnd.randint(0, 9) for _ in range(m)] for _ in range(n)]
+        return {"t": "Hist2", "var": var, "edges": sorted(rnd.sample(range(-4, 6), n + 1)),
+                "edges2": sorted(rnd.sample(range(-4, 6), m + 1)), "init2": init2}
     g = {"t": "Graph", "scale": rnd.choice([NONE, NONE, 2]), "sort": rnd.random() < 0.6, "ipts": [], "ictx": {}}
     if rnd.random() < 0.3:
         g["ipts"] = [[rnd.randint(0, 4), rnd.randint(-9, 9)] for _ in range(rnd.randint(1, 3))]
